@@ -273,8 +273,11 @@ def oracle(res, es, tier):
     kw = dict(remove_annotations=False, remove_pass=False, combine_imports=False, hoist_literals=False, rename_locals=False, remove_object_base=False,
               convert_posargs_to_args=False, preserve_shebang=False, remove_explicit_return_none=False, remove_builtin_exception_brackets=False)
     ctxs = ['x=%s', 'x=[%s,1]', 'x=f(%s)[%s]', 'def g():\n return %s', 'x=(%s)if(%s)else 0', 'x=-(%s)', 'x=(%s)**2', 'x=(%s).real', 'x={1:%s}', 'lambda:%s']
-    for i, e in enumerate(es):
-        c = ctxs[i % len(ctxs)]
+    # expressions whose value prints exactly as long as, or one character longer than, the expression: in EVERY context
+    boundary = ['1<<%d' % k for k in range(13, 21)] + ['3<<15', '5<<15', '7<<12', '2**16', '10**5', '4*25', '99+1', '9*9', '2e0*5', '1e2+0', '100-1', '0xff+1']
+    ctxs_all = ctxs + ['x=(%s).bit_length()', 'x=a*(%s)', 'x=(%s)*a', 'x=-(%s)', 'x=a**(%s)', 'x=(%s)**a', 'x=a[(%s)]', 'x=f"{(%s)}"', 'x=(%s)if a else b', 'x=a if(%s)else b', 'x=not(%s)', 'x=a-(%s)', 'x=a<<(%s)', 'x=(%s)in a', 'assert(%s)', 'x=[(%s)for a in b]', 'x=lambda:(%s)', 'x=a.b((%s))', 'x=(%s),']
+    pairs = [(ctxs[i % len(ctxs)], e) for i, e in enumerate(es)] + [(c, e) for e in boundary for c in ctxs_all]
+    for c, e in pairs:
         src = (c.replace('%s', e)) + '\n'
         try:
             a = python_minifier.minify(src, constant_folding=True, **kw)
